@@ -50,6 +50,21 @@ META = {
     "design_ref": "DESIGN.md section 3, C45",
 }
 
+
+def _preload():
+    """Import the ioflo modules under test once in the parent process (vp.cli imports this module after
+    env.use_repo()), so that the forked shard workers do not each recompile ioflo (~1 s per shard)."""
+    try:
+        from vp.core import env
+        env.use_repo()
+        import ioflo.base.storing
+        import ioflo.base.arbiting
+    except Exception:       # the lazy imports inside the check functions report the real error
+        pass
+
+
+_preload()
+
 ARBS = ["switch", "priority", "trusted", "weighted"]
 SELS = [True, False, 0, 1]
 TRUTHS = [None, True, False, -0.5, 0, 0.3, 0.5, 1, 1.7]
@@ -248,15 +263,30 @@ def analyse(case, exp):
 
 
 # ------------------------------------------------------------------------------- enumeration
+# reduced sets for the complete 3-input tables of the thorough tier
+SELS3 = [True, False]
+TRUTHS3 = [None, False, 0.3, 0.5, 1.7]
+IMPS3 = [0.25, 1.0]
+IMPS3_W = [0, 0.25, 1.0]
+WTRIPLES = [(0, 1.5, -2), (1.5, -2, 0), (-2, -2, 1.5), (1.5, 1.5, 1.5), (0, -2, 4), ("a", 1.5, 0), (0, None, 1.5), (1.5, 0, "a")]
+
+
+def _sets(arb, n):
+    if n == 3:
+        return SELS3, TRUTHS3, (IMPS3_W if arb == "weighted" else IMPS3)
+    return SELS, TRUTHS, (IMPS_W if arb == "weighted" else IMPS)
+
+
 def _space(arb, n):
-    imps = IMPS_W if arb == "weighted" else IMPS
-    per = len(SELS) * len(TRUTHS) * len(imps)
+    sels, truths, imps = _sets(arb, n)
+    per = len(sels) * len(truths) * len(imps)
     return per ** n * len(DTS), per, imps
 
 
 def _decode(arb, n, idx):
     """idx -> case (mixed radix; values cycle with idx so that inputs/default differ)."""
     total, per, imps = _space(arb, n)
+    sels, truths, imps = _sets(arb, n)
     k = idx
     dt = DTS[k % len(DTS)]
     k //= len(DTS)
@@ -264,16 +294,18 @@ def _decode(arb, n, idx):
     for j in range(n):
         r = k % per
         k //= per
-        s = SELS[r % len(SELS)]
-        r //= len(SELS)
-        t = TRUTHS[r % len(TRUTHS)]
-        r //= len(TRUTHS)
+        s = sels[r % len(sels)]
+        r //= len(sels)
+        t = truths[r % len(truths)]
+        r //= len(truths)
         rows.append([s, t, imps[r]])
     if arb == "weighted":
         if n == 1:
             vals = [VALS[idx % len(VALS)]]
-        else:
+        elif n == 2:
             vals = list(WPAIRS[idx % len(WPAIRS)])
+        else:
+            vals = list(WTRIPLES[idx % len(WTRIPLES)])
     else:
         vals = [VALS[(idx + j) % len(VALS)] for j in range(n)]
     for j in range(n):
@@ -290,6 +322,9 @@ def plan(tier):
         shards.append({"part": "exh", "arb": arb, "n": 1, "k": 0, "K": 1})
         for k in range(NCHUNK):
             shards.append({"part": "exh", "arb": arb, "n": 2, "k": k, "K": NCHUNK})
+        if tier == "thorough":      # complete 3-input tables over reduced sets (SELS3 x TRUTHS3 x IMPS3)
+            for k in range(2):
+                shards.append({"part": "exh", "arb": arb, "n": 3, "k": k, "K": 2})
     nrand = 4 if tier == "quick" else 16
     shards += [{"part": "rand", "i": i} for i in range(nrand)]
     return shards
@@ -352,10 +387,11 @@ def work(shard, seed, tier):
                 acc.fail(sig, what, case)
         acc.exhaustive = True
         acc.note("complete 1- and 2-input tables per arbiter over the listed selection/truth/importance/default-truth sets "
-                 "(values assigned cyclically, not enumerated)")
+                 "(values assigned cyclically, not enumerated); thorough tier: also complete 3-input tables over selection{True,False} x "
+                 "truth{None,False,0.3,0.5,1.7} x importance{0.25,1.0 (+0 weighted)} x the four default truths")
         return acc
 
-    n = 1000 if tier == "quick" else 30000
+    n = 1000 if tier == "quick" else 12000
 
     def execute(case):
         fails, exp = check_case(case)
